@@ -558,9 +558,9 @@ fn scale_values() -> Vec<(String, Val)> {
 /// generated one at a time from their index (the whole family held in memory would need GBs).
 fn dense_bounds(thorough: bool) -> (usize, usize, usize) {
     if thorough {
-        (2100, 1000, 1200)
+        (2100, 1000, 4400)
     } else {
-        (1100, 400, 300)
+        (1100, 400, 1700)
     }
 }
 
@@ -572,6 +572,7 @@ fn dense_count(thorough: bool) -> usize {
 fn name_pairs() -> Vec<(String, String)> {
     let mut pairs: Vec<(String, String)> = vcore::collide::pairs().iter().map(|(_, a, b)| (a.clone(), b.clone())).collect();
     pairs.extend(vcore::sjis::suffix_pairs());
+    pairs.extend(vcore::sjis::case_pairs());
     pairs
 }
 
